@@ -820,6 +820,16 @@ def field_source(prog: Program) -> RuleResult:
                     problems.append(f"the parsed mapping is merged into `{short(par, 80)}` BEFORE another source: later entries win, so an explicit entry of the dictionary can be overridden")
             if isinstance(par, ast.BinOp) and isinstance(par.op, ast.BitOr) and par.left is call:
                 problems.append(f"the parsed mapping is the left operand of `{short(par, 80)}`: the right operand wins on common keys")
+            # the parsed mapping bound to a local that is then overwritten in bulk / entry by entry from another source
+            if isinstance(par, ast.Assign) and len(par.targets) == 1 and isinstance(par.targets[0], ast.Name):
+                local = par.targets[0].id
+                for later in walk_no_nested(fn):
+                    if getattr(later, "lineno", 0) <= par.lineno:
+                        continue
+                    if isinstance(later, ast.Call) and isinstance(later.func, ast.Attribute) and later.func.attr == "update" and dotted(later.func.value) == local:
+                        problems.append(f"the parsed mapping is then overwritten by `{short(later, 80)}`: entries of the other source win over the explicit ones")
+                    elif isinstance(later, ast.AugAssign) and isinstance(later.op, ast.BitOr) and dotted(later.target) == local:
+                        problems.append(f"the parsed mapping is then overwritten by `{short(later, 80)}`")
             if problems:
                 res.fail(construct, "; ".join(problems), mod, call)
             else:
